@@ -9,6 +9,7 @@ import (
 	"regexp"
 	"sort"
 	"strings"
+	"sync"
 	"time"
 
 	"verif/ev"
@@ -59,8 +60,22 @@ func runParent(r *ev.Run) {
 	per := r.N(25, 600)
 	batches := r.N(1, 4)
 	for b := 0; b < batches; b++ {
+		// the children of one batch are independent processes: four at a time
+		results := make([]childRes, len(pats))
+		var cwg sync.WaitGroup
+		slots := make(chan struct{}, 4)
 		for pi, pat := range pats {
-			c := spawn("rounds", pat, per/batches+1, r.Seed*100+int64(b*10+pi), 20*time.Minute)
+			cwg.Add(1)
+			go func(pi int, pat string) {
+				defer cwg.Done()
+				slots <- struct{}{}
+				defer func() { <-slots }()
+				results[pi] = spawn("rounds", fmt.Sprintf("%s", pat), per/batches+1, r.Seed*100+int64(b*10+pi), 20*time.Minute)
+			}(pi, pat)
+		}
+		cwg.Wait()
+		for pi, pat := range pats {
+			c := results[pi]
 			if !judgeChild(r, c, "rounds/"+pat) {
 				continue
 			}
@@ -98,7 +113,7 @@ func runParent(r *ev.Run) {
 	}
 	// ---- (2b) bursts: many cheap rounds on single conflict points ----
 	for bi := 0; bi < r.N(2, 8); bi++ {
-		c := spawn("bursts", "x", r.N(600, 1500), r.Seed*1000+int64(bi), 20*time.Minute)
+		c := spawn("bursts", "x", r.N(450, 1500), r.Seed*1000+int64(bi), 20*time.Minute)
 		if !judgeChild(r, c, "bursts") {
 			continue
 		}
@@ -235,8 +250,8 @@ func runParent(r *ev.Run) {
 	r.Floor("porcupine.ok", 60)
 	r.Floor("spin.acquired", 50000)
 	r.Floor("spin.refused", 1000)
-	r.Floor("bursts.spend", 200)
-	r.Floor("bursts.key", 200)
+	r.Floor("bursts.spend", 150)
+	r.Floor("bursts.key", 150)
 	r.Floor("bursts.select", 200)
 	r.Floor("receiver.rounds", 20)
 	r.Floor("sched.schedules", 800)
